@@ -13,6 +13,7 @@
 #include <stdio.h>
 #include <stdlib.h>
 #include <string.h>
+#include <sys/prctl.h>
 #include <sys/stat.h>
 #include <unistd.h>
 
@@ -172,6 +173,7 @@ static bool next_tok(char *&save, const char *&tok) {
     } while (0)
 
 int main(int argc, char **argv) {
+    prctl(PR_SET_PDEATHSIG, SIGKILL);  // never outlive the checker (generated code may spin for ever)
     signal(SIGALRM, on_alarm);
     int trace_on = (argc > 1 && strcmp(argv[1], "trace") == 0);
     unsigned alarm_s = 60;
